@@ -24,7 +24,8 @@ RULE = ('Hypothesis-generated type-agnostic queries (string operations, comparis
         'query_pandas_dataframe, and SqliteRecordIterator + query_sqlite_to_csv; the join table is named per back-end. Oracle: all entry points yield the same table '
         '(str(v) per cell; CSV outputs parsed with the reference reader) and the same header; for the command line: exit 0 <=> the library succeeds, on success stderr '
         'holds only "Warning:" lines and stdout parses to exactly the table, on failure exit != 0 and stderr has an "Error [<type>]:" line with the type the library '
-        'exception maps to, stdout empty. Non-trivial = a query with >= 2 clauses and >= 2 output records (or a failing query); distinct = case digests.')
+        'exception maps to, stdout empty. Non-trivial = a query with >= 2 clauses and >= 2 output records (or a failing query); distinct = case digests.'
+        ' Later additions: the optional `csv` mode word and the sqlite command line, dataframe index variants, input dialects sharing the delimiter of a named --out-format, comment lines in both files with comment_prefix, whole-table aggregates under a bound, fixed scenarios (bounded inner joins with unmatched leading records).')
 ASSUMPTIONS = ['None outputs and numeric coercions are kept out (fields past the end of a record are not referenced)', 'header mode throughout (sqlite always has column names)',
                'cells contain no line breaks / tabs (tsv = simple policy cannot represent them: C10)']
 
